@@ -12,6 +12,11 @@ Layout histories: the machine also explores histories of a Layout2D (Build | Bui
       steps, all four corners, mixed corners, the explored region in every slot); the specification tracks where every slot
       and the accompanying array must be; each history (every prefix) is realised on real Layout2D objects through
       rotated_from_roe_corner / new_rotated_from / layout_extracted_from and judged by Trace_Layout.
+Masked arrays: the machine enumerates every non-empty mask of small frames and every corner; the specification says what
+      the rotated masked array is (the entry of the mirrored cell, zeros moving with their cells; a carried mask is the
+      mirrored mask; twice restores); Array2D.original_orientation and Layout2D.original_orientation_from are run on masked
+      slim- and native-stored Array2D objects and each call is judged by Trace_Layout (a slim-stored input for which the call
+      raises is not judged).
 Thorough tier: Apalache proves the interval identity for all naturals (spec/Layout_Apalache.tla)."""
 import re
 import shutil
@@ -26,7 +31,8 @@ CORNERS = [(1, 0), (0, 0), (1, 1), (0, 1)]
 SLOTS = ("parallel_overscan", "serial_prescan", "serial_overscan")
 INVARIANTS = ["Commute", "Involution", "RotRegionForms", "RotCompose", "CodeShapeIsOverlap1", "OverlapForms",
               "ExtractAddressesOverlap", "SubForms1", "SubForms2", "SubCounts", "SubRejectsEmpty", "CtorMeaning",
-              "HistRegionsIndexArray", "HistInvolution", "HistCompose"]
+              "HistRegionsIndexArray", "HistInvolution", "HistCompose",
+              "MaskedRotForms", "MaskedRotInvolution", "StaleMaskTheorem"]
 
 MC_CFG = """CONSTANTS
   RotShapes <- MCRotShapes
@@ -40,6 +46,7 @@ MC_CFG = """CONSTANTS
   HistShapes <- MCHistShapes
   HistDepth <- MCHistDepth
   HistAllSlots <- MCHistAllSlots
+  MaskShapes <- MCMaskShapes
 SPECIFICATION Spec
 """ + "".join(f"INVARIANT {n}\n" for n in INVARIANTS)
 
@@ -55,6 +62,7 @@ TRACE_CFG = """CONSTANTS
   HistShapes = {}
   HistDepth = 0
   HistAllSlots = FALSE
+  MaskShapes = {}
 SPECIFICATION TraceSpec
 POSTCONDITION TraceAccepted
 """
@@ -89,6 +97,7 @@ def expected_counts(b):
                     for x1 in range(x0 + 1, w + 1):
                         s2 += 4 * px + (y1 - y0 + 1) + (x1 - x0 + 1)
     out["sub2"] = s2
+    out["moo"] = sum(4 * (2 ** (h * w) - 1) for h, w in b["mask_shapes"])
     out["hist"] = sum(_niv(h) * _niv(w) * (3 if b["hist_all_slots"] else 1) * 5 * _hist_count(h, w, b["hist_depth"])
                       for h, w in b["hist_shapes"])
     return out
@@ -119,6 +128,7 @@ def enumerate_instances(ctx, b, tag="MC_Layout", timeout=1800):
         f"MCHistShapes == {_pairs(b['hist_shapes'])}",
         f"MCHistDepth == {b['hist_depth']}",
         f"MCHistAllSlots == {'TRUE' if b['hist_all_slots'] else 'FALSE'}",
+        f"MCMaskShapes == {_pairs(b['mask_shapes'])}",
     ])
     res = ctx.tlc("Layout", MC_CFG, defs=defs, tag=tag, timeout=timeout, coverage=True)
     insts = res.by_kind("inst")
@@ -385,6 +395,103 @@ def rec_ctor(dim, r):
     return rec
 
 
+MOO_ENTRIES = ("array2d.original_orientation", "layout.original_orientation_from")
+
+
+def _is_structure(x):
+    return hasattr(x, "native") and hasattr(x, "mask")
+
+
+def _moo_call(entry, stored, values, m, c):
+    """One call on a masked Array2D built from `values` (2D) and the boolean mask `m` (True = masked).
+    Returns (result, twice) -- twice is the same call applied to its own result (None when that is not possible)."""
+    import autoarray as aa
+
+    mask = aa.Mask2D(mask=m.copy(), pixel_scales=1.0)
+    header = aa.Header(original_roe_corner=c)
+    arr = aa.Array2D(values=values.copy(), mask=mask, header=header, store_native=(stored == "native"))
+    L = aa.Layout2D(shape_2d=values.shape, original_roe_corner=c)
+
+    def again(res):
+        if entry == MOO_ENTRIES[0]:
+            if _is_structure(res) and getattr(res, "header", None) is not None:
+                return res.original_orientation
+            return aa.Array2D.no_mask(values=np.asarray(res), pixel_scales=1.0, header=header).native.original_orientation
+        return L.original_orientation_from(array=res)
+
+    res = arr.original_orientation if entry == MOO_ENTRIES[0] else L.original_orientation_from(array=arr)
+    twice = None
+    if _is_structure(res) or np.asarray(res).ndim == 2:
+        twice = _try(lambda: again(res), "exc")
+    return res, twice
+
+
+def _moo_read(x):
+    """alpha: (dim, 2D or 1D float values as read through the public view, carried mask or None)."""
+    if _is_structure(x):
+        return 2, np.asarray(x.native, dtype=float), np.asarray(x.mask, dtype=bool)
+    a = np.asarray(x, dtype=float)
+    return a.ndim, a, None
+
+
+def rec_moo(h, w, u, c, entry, stored, seed=0):
+    """u: bitmap (1 = unmasked) in row-major order."""
+    n = h * w
+    c = tuple(c)
+    m = ~np.array(u, dtype=bool).reshape(h, w)
+    rec = {"p": "C19", "api": "moo", "h": h, "w": w, "u": [int(v) for v in u], "c": list(c), "entry": entry, "stored": stored,
+           "raised": False, "dim": 0, "vals": [[exact.OFF]], "hasmask": False, "umask": [], "twice": [], "payload_ok": True}
+
+    def src_rows(a):  # tags -> source cells, an exact 0 is Zero (-1)
+        flat = exact.tags_to_src(a, base=1, n_cells=n)
+        return [flat[i * a.shape[1]: (i + 1) * a.shape[1]] for i in range(a.shape[0])]
+
+    try:
+        res, twice = _moo_call(entry, stored, _tags(h, w), m, c)
+    except Exception as ex:
+        rec["raised"] = True
+        rec["exc"] = type(ex).__name__
+        return rec
+    try:
+        dim, vals, cm = _moo_read(res)
+    except Exception as ex:
+        rec["exc"] = "reading the result: " + type(ex).__name__
+        return rec
+    rec["dim"] = int(dim) if dim in (1, 2) else 0
+    if dim == 2:
+        rec["vals"] = src_rows(vals)
+    elif dim == 1:
+        rec["vals"] = [exact.tags_to_src(vals, base=1, n_cells=n)]
+    if cm is not None:
+        rec["hasmask"] = True
+        rec["umask"] = [int(v) for v in (~cm).ravel()] if cm.shape == (h, w) else [exact.OFF]
+    if dim == 2:
+        if twice is None or isinstance(twice, str):
+            rec["twice"] = [[exact.OFF]]
+        else:
+            try:
+                d2, v2, _ = _moo_read(twice)
+                rec["twice"] = src_rows(v2) if d2 == 2 else [[exact.OFF]]
+            except Exception:
+                rec["twice"] = [[exact.OFF]]
+    # payload independence: arbitrary reals must move exactly like the tags (masked entries are exact zeros)
+    try:
+        rng = np.random.default_rng(seed + 13 * h + w)
+        real = rng.standard_normal((h, w)) * rng.choice([1e-300, 1.0, 1e300 / 8])
+        real[real == 0] = 1.0
+        rres, _ = _moo_call(entry, stored, real, m, c)
+        rd, rv, _ = _moo_read(rres)
+        s = np.array(rec["vals"], dtype=np.int64)
+        ok = rd == dim and rv.shape == (s.shape if dim == 2 else s.shape[1:])
+        if ok and s.size and s.min() >= -1:
+            want = np.where(s >= 0, real.ravel()[np.clip(s, 0, n - 1)], 0.0).reshape(rv.shape)
+            ok = bool(np.array_equal(want, rv))
+        rec["payload_ok"] = bool(ok)
+    except Exception:
+        rec["payload_ok"] = False
+    return rec
+
+
 def rec_hist(h, w, regs, steps):
     """Realise a layout history on real Layout2D objects (and take the tagged array through the same history with
     layout_util / Region2D.slice); report what is observed after the last step."""
@@ -434,6 +541,9 @@ def rec_hist(h, w, regs, steps):
 
 def records_for(inst, seed=0, pad=4):
     k = inst["kind"]
+    if k == "moo":
+        h, w = inst["sh"]
+        return [rec_moo(h, w, inst["r"], inst["c"], e, st, seed) for e in MOO_ENTRIES for st in ("native", "slim")]
     if k == "hist":
         return [rec_hist(inst["sh"][0], inst["sh"][1], inst["regs"], inst["steps"])]
     if k == "rot":
@@ -541,6 +651,21 @@ def random_instances(rng, quick):
             j = int(rng.integers(0, 2))
             r4[2 * j + 1] = r4[2 * j]  # an empty extent on one axis only
         insts.append({"kind": "ctor2", "r": r4})
+    for k in range(40 * f):
+        h, w = int(rng.integers(2, 8)), int(rng.integers(2, 9))
+        u = rng.random((h, w)) < [0.2, 0.5, 0.85][k % 3]
+        style = k % 5
+        if style == 1:
+            u = u | u[::-1, :] | u[:, ::-1] | u[::-1, ::-1]  # symmetric under every flip
+        elif style == 2:
+            u[:, :] = True
+            u[0, : max(1, w // 2)] = False  # a lopsided notch
+        elif style == 3:
+            u = u | u[::-1, :]  # symmetric under the row flip only
+        if not u.any():
+            u[int(rng.integers(0, h)), int(rng.integers(0, w))] = True
+        insts.append({"kind": "moo", "sh": [h, w], "c": list(CORNERS[int(rng.integers(0, 4))]),
+                      "r": [int(v) for v in u.ravel()]})
     for _ in range(60 * f):
         h, w = int(rng.integers(2, 10)), int(rng.integers(2, 12))
         regs = []
@@ -574,7 +699,7 @@ def random_instances(rng, quick):
 # validation through Trace_Layout
 # ----------------------------------------------------------------------------------------------
 def _describe(rec):
-    keys = ("h", "w", "c", "r", "o", "e", "m", "px", "dim", "regs")
+    keys = ("h", "w", "c", "r", "o", "e", "m", "px", "dim", "regs", "u", "entry", "stored")
     d = f"{rec['api']} " + " ".join(f"{k}={rec[k]}" for k in keys if k in rec)
     if "steps" in rec:
         d += " steps=" + ">".join(s["op"] + (str(tuple(s["c"])) if s["op"] in ("rot", "buildrot") else str(tuple(s["e"])) if s["op"] == "ext" else "")
@@ -658,11 +783,13 @@ def bounds_for(quick):
     if quick:
         return {"rot_shapes": [(h, w) for h in range(1, 6) for w in range(1, 7)],
                 "iv_max": 8, "ext_shapes": [(3, 4), (4, 3)], "sub_shapes": [(3, 3), (1, 4)], "sub1_max": 5, "px_max": 3,
-                "ctor_lo": -1, "ctor_hi": 3, "hist_shapes": [(2, 3), (3, 2)], "hist_depth": 2, "hist_all_slots": False}
+                "ctor_lo": -1, "ctor_hi": 3, "hist_shapes": [(2, 3), (3, 2)], "hist_depth": 2, "hist_all_slots": False,
+                "mask_shapes": [(1, 3), (3, 1), (2, 2), (2, 3), (3, 2)]}
     return {"rot_shapes": [(h, w) for h in range(1, 7) for w in range(1, 8)],
             "iv_max": 10, "ext_shapes": [(4, 5), (5, 4), (5, 5), (3, 3)], "sub_shapes": [(4, 5), (5, 4), (1, 1)],
             "sub1_max": 9, "px_max": 5, "ctor_lo": -2, "ctor_hi": 5,
-            "hist_shapes": [(2, 3), (3, 2), (3, 3)], "hist_depth": 2, "hist_all_slots": True}
+            "hist_shapes": [(2, 3), (3, 2), (3, 3)], "hist_depth": 2, "hist_all_slots": True,
+            "mask_shapes": [(1, 3), (3, 1), (2, 2), (2, 3), (3, 2), (3, 3), (2, 4), (4, 2), (1, 5)]}
 
 
 def run(ctx):
@@ -688,16 +815,17 @@ def run(ctx):
     by_api = {}
     for r in recs:
         by_api.setdefault(r["api"], []).append(r)
-    for api in ("rot", "ext2", "sub2", "hist"):
+    for api in ("rot", "ext2", "moo", "hist"):
         if by_api.get(api):
             ctx.sample({"record": by_api[api][len(by_api[api]) // 2]})
     ctx.sample({"instance": insts[len(insts) // 3], "random_instance": rnd[0]})
     validate(ctx, recs, "C19")
     ctx.note(f"{len(insts)} enumerated instances ({counts}) + {len(rnd)} random larger instances -> {len(recs)} records "
              f"({ {k: len(v) for k, v in by_api.items()} }) judged by Trace_Layout")
-    ctx.note("Array2D.original_orientation is observed on native-stored arrays (Array2D.native): it hands np.array(self) to "
-             "rotate_array_via_roe_corner_from, which is documented for 2D ndarrays; on a slim-stored Array2D the call raises "
-             "IndexError for three corners -- outside the statement of C19 (which is about index arithmetic), reported to the coordinator")
+    ctx.note("masked arrays: Array2D.original_orientation / Layout2D.original_orientation_from are run on masked Array2D inputs, "
+             "slim- and native-stored; on this tree a slim-stored input raises IndexError for three corners (the stored 1D values are "
+             "handed to a function documented for 2D arrays) -- recorded as raised and not judged; every returned value is judged "
+             "(2D: the rotated content; 1D: its slim reading; a carried mask must be the rotated mask; twice restores)")
     ctx.note("layout histories: Trace_Layout recomputes the expected slots / array from the recorded history; a history whose "
              "observation equals the code-shaped formulation 'extraction keeps the old shape_2d' (and differs from the "
              "specification only for that reason) gets the signature hist:rotate-after-extract:stale-shape_2d (known finding, "
@@ -710,7 +838,8 @@ def run(ctx):
         "pixels_from_end ranges over 0 .. parent length",
         "extraction: original region and window are valid (x0 < x1); for invalid intervals the statement promises nothing "
         "(and the identity is false there, confirmed with Apalache)",
-        "Array2D.original_orientation observed on native-stored arrays only",
+        "an Array2D result is read through its public native view and its carried mask; an ndarray result directly",
+        "a call on a slim-stored masked Array2D that raises is outside what is judged; a call on a native-stored one must not raise",
         "Layout2D.new_rotated_from(c) APPLIES the flips of corner c (an involution), whatever original_roe_corner the layout "
         "carries; after layout_extracted_from(e) the layout describes the extracted window (its shape is the frame of later rotations); "
         "original_roe_corner / shape_2d attributes are recorded but not judged (the statement is about regions and arrays)",
@@ -735,6 +864,8 @@ def replay(ctx, rp):
         recs = [rec_sub(2, rec["r"], rec["m"], rec["px"], rec["h"], rec["w"])]
     elif api == "ctor":
         recs = [rec_ctor(rec["dim"], rec["r"])]
+    elif api == "moo":
+        recs = [rec_moo(rec["h"], rec["w"], rec["u"], rec["c"], rec["entry"], rec["stored"], ctx.seed)]
     elif api == "hist":
         recs = [rec_hist(rec["h"], rec["w"], rec["regs"], rec["steps"][:k]) for k in range(1, len(rec["steps"]) + 1)]
     else:
